@@ -200,7 +200,22 @@ def run_case(case, ctx):
         ham = agg.get_Hamiltonian()
         sbi = agg.get_SystemBathInteraction()
     dim = ham.dim
-    Hrwa = numpy.array(ham.data, dtype=float) - numpy.diag(numpy.array(ham.rwa_energies, dtype=float))
+    if cls in ("dynamics", "closed-limit") and case["seed"] % 3 == 0 and N >= 2:
+        # a Hermitian Hamiltonian with complex resonance couplings J exp(i phi) (same energies, same system-bath interaction)
+        prng = numpy.random.default_rng(case["seed"] + 1)
+        Hc = numpy.array(ham.data, dtype=complex)
+        for a_ in range(1, dim):
+            for b_ in range(a_ + 1, dim):
+                ph = numpy.exp(1j * prng.uniform(0.3, 2.8))
+                Hc[a_, b_] = Hc[a_, b_] * ph
+                Hc[b_, a_] = numpy.conj(Hc[a_, b_])
+        with ctx.lib("Hamiltonian with complex couplings"):
+            hamc = qr.Hamiltonian(data=Hc)
+            hamc.set_rwa([int(x) for x in ham.rwa_indices])
+        ctx.check("closed-system-limit", float(numpy.max(numpy.abs(numpy.array(hamc.rwa_energies) - numpy.array(ham.rwa_energies)))), 1e-12, {"what": "rotating-wave energies of the complex Hamiltonian"})
+        ham = hamc
+        ctx.event("complex_hermitian_hamiltonians")
+    Hrwa = numpy.array(ham.data) - numpy.diag(numpy.array(ham.rwa_energies, dtype=float))
 
     if cls in ("dynamics", "closed-limit"):
         rng = numpy.random.default_rng(case["seed"])
